@@ -58,7 +58,7 @@ def _apply_bg_color(element: ContentElement, bg_color: ColorType):
 
 def _safe_area_decoder(s: Number) -> int:
   safe_area = int(s)
-  if 30 < safe_area < 0:
+  if safe_area < 0 or safe_area > 30:
     raise ValueError("Safe area must be an integer between 0 and 30")
   return safe_area
 
